@@ -53,6 +53,49 @@ CHECKS = {
             "validator (frozen spec model) accepts.",
             "Only specification rules held with high confidence are switched on (specmodel/AUDIT.md); stix2patterns validates patterns.",
             "DESIGN.md section 2, C02"),
+    "C04": ("fault_enumeration", "enumeration of custom-content injection sites on generated objects x switch x entry point; oracle = refusal / has_custom vs strict re-parse",
+            "For every type of both versions, generated base objects receive every injection the engine derives (custom properties at top "
+            "level, in each embedded object, registered extension and container member; unregistered extensions; custom and foreign-version "
+            "hash names; references to unregistered types; unregistered observable members and marking types; the custom_properties content "
+            "key) with allow_custom False and True through parse, constructors, Bundle, bundle dicts, parse_observable and MemoryStore.add, "
+            "plus controls. Strict calls must refuse; permissive results must have has_custom == (strict re-parse refuses).",
+            "Pre-built objects handed to stores are outside the asserted routes (documented pass-through).",
+            "DESIGN.md section 2, C04"),
+    "C06": ("exploration", "generated observables; independent recomputation (own RFC 8785 + uuid5) and metamorphic relations over presentation/edits",
+            "2.1 SCOs of every type and two harness-registered custom observables are created without id from generated content (escapes, "
+            "astral keys, floats, big integers, timestamps at all precisions, nested extensions, several hashes); the id is recomputed "
+            "independently from the serialization using the frozen model's contributing lists; invariance under routes, member-order "
+            "permutations, round trips and non-contributing edits, and sensitivity to contributing edits are asserted.",
+            "Trusts oracle/rfc8785.py, uuid.uuid5 and the contributing-property lists of the frozen model.",
+            "DESIGN.md section 2, C06"),
+    "C13": ("exploration", "generated operation sequences over shared inputs; before/after deep snapshots of every argument and every earlier object",
+            "Sequences of 4-9 operations from a 22-entry catalogue (parse, constructors with the caller's own nested containers, Bundle, "
+            "deepcopy, versioning, markings on objects and dicts, stores, save/load, ObjectFactory, canonicalize, direct mutation attempts) "
+            "reuse 1-3 generated documents and the objects created along the way; all caller containers and the serialization of all existing "
+            "objects are compared around every call, returning or raising.",
+            "Value identity = canonical JSON of containers / include-defaults serialization of objects; aliasing is not asserted.",
+            "DESIGN.md section 2, C13"),
+    "C14": ("fault_enumeration", "finite product of entry points x versions x types x identifier kinds, differential against the direct keyword parse",
+            "14 entry points with a version parameter x version in {None,2.0,2.1} x every storable type of both versions (plus spec_version-less "
+            "flavours) x identifier in {valid, nil, non-RFC-4122 variant, UUIDv1} x allow_custom, each compared with stix2.parse(doc, "
+            "allow_custom=, version=) for class, serialization and refusal; library-produced content of every type is re-parsed with no "
+            "version named. Quick tier rotates 4 of the 14 entry points per combination; thorough runs the full product.",
+            "The direct keyword parse is the reference (differential); filesystem source routes read files the harness writes in the documented layout.",
+            "DESIGN.md section 2, C14"),
+    "C17": ("fault_enumeration", "systematic junk substitution in every slot of generated objects + arbitrary generated JSON + nesting catalogue; oracle = exception family, registries/stores unchanged, watchdog",
+            "For every type of both versions, every property slot at every depth (incl. slots read before cleaning) of generated objects is "
+            "replaced by ~30 junk values of every JSON kind (stratified in quick, denser in thorough), 1-5 at a time, through 8 entry "
+            "points; arbitrary STIX-flavoured JSON is fed to parse/parse_observable/constructors; nesting 10..5000 is enumerated. Only "
+            "STIXError/ValueError/TypeError may escape; registries and stores must be unchanged; each call runs under a 60 s watchdog.",
+            "The exception family is the one the property statement names; store.add exceptions are not judged, only store contents.",
+            "DESIGN.md section 2, C17"),
+    "C19": ("exploration", "generated registration/parse histories interpreted next to a model registry with snapshot/restore",
+            "Histories of 2-7 registrations (four kinds, both versions; fresh, reused, built-in, cross-category and rule-probing names; "
+            "property-name and _ref typing probes; extension_name helpers) interleaved with parses in both versions; after each accepted "
+            "registration a round-trip / required-property / versioning / deterministic-id pass; after every step built-in dispatch is "
+            "re-checked and refused registrations must leave all eight registry maps unchanged.",
+            "Naming oracle is one-directional (clearly illegal refused, clearly legal accepted, grey zone unasserted).",
+            "DESIGN.md section 2, C19"),
 }
 
 NOT_YET = {}
